@@ -7,6 +7,8 @@ import (
 	"go/token"
 	"go/types"
 	"strconv"
+
+	"golang.org/x/tools/go/types/typeutil"
 )
 
 func constTerm(v constant.Value) *Term {
@@ -206,6 +208,15 @@ func (b *Builder) global(v *types.Var) *Term {
 				if allConst {
 					return &Term{Op: "list", Name: b.P.typeStr(v.Type()), Args: elts}
 				}
+				nonNilGlobals[name] = true
+			}
+			if call, ok := ast.Unparen(init).(*ast.CallExpr); ok {
+				if fn, ok := typeutil.Callee(pk.TypesInfo, call).(*types.Func); ok {
+					switch fn.FullName() {
+					case "errors.New", "fmt.Errorf":
+						nonNilGlobals[name] = true
+					}
+				}
 			}
 		}
 	}
@@ -285,6 +296,7 @@ func (b *Builder) compositeLitOf(x *ast.CompositeLit, t types.Type) *Term {
 	switch u := t.Underlying().(type) {
 	case *types.Struct:
 		out := &Term{Op: "struct", Name: b.P.typeStr(t), Args: []*Term{tZero}}
+		defer func() { out.Pos = x.Pos() }()
 		for i, e := range x.Elts {
 			if kv, ok := e.(*ast.KeyValueExpr); ok {
 				name := kv.Key.(*ast.Ident).Name
